@@ -6,6 +6,7 @@ import (
 	"fmt"
 	"math/rand"
 	"strings"
+	"sync"
 
 	"github.com/google/gopacket"
 	"github.com/google/gopacket/layers"
@@ -90,6 +91,11 @@ type ScanMethod struct {
 	results   scan.ResultChan
 	vpnMode   bool
 
+	// A port scan of more than 200 ranges runs one engine per chunk, all of them with
+	// this scan method, and the receiver of a chunk may still be processing its last
+	// packet when the receiver of the next chunk starts: the decoding state below
+	// must not be used by two receivers at the same time
+	rcvMu      sync.Mutex
 	rcvDecoded []gopacket.LayerType
 	rcvEth     layers.Ethernet
 	rcvIP      layers.IPv4
@@ -148,6 +154,8 @@ func (s *ScanMethod) Results() <-chan scan.Result {
 }
 
 func (s *ScanMethod) ProcessPacketData(data []byte, _ *gopacket.CaptureInfo) (err error) {
+	s.rcvMu.Lock()
+	defer s.rcvMu.Unlock()
 	if err = s.parser.DecodeLayers(data, &s.rcvDecoded); err != nil {
 		return
 	}
